@@ -231,6 +231,7 @@ static Plan gen_merge(const std::string &prop, const std::string &tier, uint64_t
 	if (prop == "C04") {
 		uint64_t d = r.below(20);
 		p.seti("observe", d < 14 ? 0 : d < 18 ? 1 : 2);	// 0 iterate, 1 mtbl_source_write, 2 src/mtbl_merge
+		p.seti("twin", r.chance(1, 4) ? 1 : 0);
 		p.seti("tool_c", r.below(6));
 		p.seti("tool_l", r.chance(1, 2) ? -999 : (long long)r.below(25) - 3);
 		{ static const long long bs[] = { 0, 1024, 4096, 65536, -1024, -8192, 100 }; p.seti("tool_b", bs[r.below(7)]); }
@@ -500,6 +501,12 @@ static RunResult exec_merge(const Plan &p)
 	} else if (observe == 0) {
 		// ---- full iteration
 		mtbl_iter *it = mtbl_source_iter(msrc);
+		// twin: a second iterator of the same merger is alive and advanced in step (one entry behind); both must see the
+		// whole merged content - iterators of one merger share nothing a caller could see
+		bool twin = mode == 0 && p.geti("twin", 0) && !mc.fail_at;
+		mtbl_iter *it2 = twin ? mtbl_source_iter(msrc) : nullptr;
+		auto pos2 = w.merged.begin();
+		if (twin) res.probes["two-iterators-of-one-merger-in-step"]++;
 		if (mode == 0) {
 			auto pos = w.merged.begin();
 			uint64_t calls_before = 0;
@@ -526,10 +533,19 @@ static RunResult exec_merge(const Plan &p)
 				if (gk != pos->first) { res.fail("MODEL", mfmt::cmp(gk, pos->first) > 0 ? "MERGE-key-dropped" : "MERGE-key-order", "merger returned key " + short_repr(gk) + ", model expects " + short_repr(pos->first)); break; }
 				if (gv != pos->second) { res.fail("MODEL", "MERGE-value", "key " + short_repr(gk) + ": value " + short_repr(gv) + " is not the fold of exactly the source values " + short_repr(pos->second)); break; }
 				calls_before += need;
-				if (!inner && mc.calls != calls_before) { res.fail("MODEL", "MERGE-callcount", "after key " + short_repr(gk) + " the merge callback ran " + std::to_string(mc.calls) + " times, expected " + std::to_string(calls_before)); break; }
+				if (twin && n >= 1 && !res.viol) {
+					const uint8_t *k2, *v2; size_t kl2, vl2;
+					if (mtbl_iter_next(it2, &k2, &kl2, &v2, &vl2) != mtbl_res_success) { res.fail("MODEL", "MERGE-twin-missing", "second iterator of the same merger ended early, model expects key " + short_repr(pos2->first)); break; }
+					Bytes gk2((const char *)k2, kl2), gv2((const char *)v2, vl2);
+					if (gk2 != pos2->first || gv2 != pos2->second) { res.fail("MODEL", "MERGE-twin-value", "second iterator of the same merger returned " + short_repr(gk2) + " = " + short_repr(gv2) + ", model expects " + short_repr(pos2->first) + " = " + short_repr(pos2->second)); break; }
+					++pos2;
+					// and the entry the first iterator handed out must still be intact (its buffers are its own)
+					if (Bytes((const char *)k, kl) != gk || Bytes((const char *)v, vl) != gv) { res.fail("MODEL", "MERGE-twin-clobbered", "the entry returned by one iterator changed when another iterator of the same merger was advanced (key " + short_repr(gk) + ")"); break; }
+				}
+				if (!inner && !twin && mc.calls != calls_before) { res.fail("MODEL", "MERGE-callcount", "after key " + short_repr(gk) + " the merge callback ran " + std::to_string(mc.calls) + " times, expected " + std::to_string(calls_before)); break; }
 				++pos; ++n;
 			}
-			if (inner && !res.viol && pos == w.merged.end() && mc.calls != calls_before)
+			if (inner && !twin && !res.viol && pos == w.merged.end() && mc.calls != calls_before)
 				res.fail("MODEL", "MERGE-callcount", "nested mergers: the merge callback ran " + std::to_string(mc.calls) + " times in total, expected " + std::to_string(calls_before));
 		} else {
 			// no merge function: every source entry, ascending by key; equal keys by dupsort or as a multiset
@@ -562,6 +578,7 @@ static RunResult exec_merge(const Plan &p)
 			if (mode == 2) res.probes["dupsort-run"]++;
 		}
 		mtbl_iter_destroy(&it);
+		if (it2) mtbl_iter_destroy(&it2);
 	} else if (observe == 1) {
 		// ---- mtbl_source_write into a real writer, then read back
 		std::string out = dir + "/merged.mtbl";
